@@ -17,6 +17,7 @@ import (
 	"github.com/lmorg/murex/utils"
 	"github.com/lmorg/murex/utils/ansititle"
 	"github.com/lmorg/murex/utils/crash"
+	"github.com/lmorg/murex/utils/verifhook"
 )
 
 var (
@@ -217,6 +218,7 @@ func createProcess(p *Process, isMethod bool) {
 
 func executeProcess(p *Process) {
 	defer crash.Handler()
+	verifhook.Yield(verifhook.SiteExecuteProcess)
 
 	testStates(p)
 
@@ -430,6 +432,7 @@ func destroyProcess(p *Process) {
 	// Make special case for `bg` because that doesn't wait.
 	if p.Name.String() != "bg" && !p.IsFork {
 		//debug.Json("destroyProcess (p.WaitForTermination <- false)", p.Dump())
+		verifhook.Yield(verifhook.SiteBeforeWaitForTermination)
 		p.WaitForTermination <- false
 	}
 
@@ -454,6 +457,7 @@ func deregisterProcess(p *Process) {
 	}
 
 	go func() {
+		verifhook.Yield(verifhook.SiteDeregister)
 		p.State.Set(state.AwaitingGC)
 		GlobalFIDs.Deregister(p.Id)
 		if p.HasJobId.Get() {
